@@ -216,6 +216,9 @@ class Outbound:
                 "registering producer %s before previous one (%s) was "
                 "unregistered" % (producer,
                                   self._subchannel_producers[sc]))
+        # we keep producers in sets: if this one cannot be hashed, say so now,
+        # before any of the bookkeeping below has been touched
+        hash(producer)
         # our underlying Connection uses streaming==True, so to make things
         # easier, use an adapter when the Subchannel asks for streaming=False
         if not streaming:
